@@ -112,6 +112,29 @@ def generate(rng, index, tier):
                 ops.append(worlds.op_single(rng, 'MACH_MKRUNNABLE'))
         threads.append({'tid': 500 + si, 'ops': ops})
     ids = worlds.catalog()['ids']
+    # windows of one thread that overlap without nesting: something unrelated starts before a sample and ends inside it; a launch
+    # starts inside a sample, announces an image and ends after it
+    und = [k for k, _v in worlds.catalog()['undecoded'] if k >> 24 not in (0x25, 0x1f, 7)]
+    for th in threads[nann:]:
+        new_ops = []
+        for op in th['ops']:
+            if op.get('k') == 'sys' and op.get('name') == 'PERF_Event' and und:
+                r = rng.random()
+                if r < 0.12:
+                    xid = rng.pick(und)
+                    new_ops.append({'k': 'raw', 'id': xid, 'q': 1, 'a': rng.words()})
+                    op['in'].insert(rng.randrange(len(op['in']) + 1), {'k': 'raw', 'id': xid, 'q': 2, 'a': rng.words()})
+                    new_ops.append(op)
+                    continue
+                if r < 0.2:
+                    im = rng.pick(images)
+                    op['in'].append({'k': 'raw', 'id': ids['DBG_DYLD_TIMING_LAUNCH_EXECUTABLE'], 'q': 1, 'a': [0, rng.randrange(1 << 40), 0, 0]})
+                    op['in'].append(worlds.op_imap(rng, im['uuid'], im['addr'], shared=rng.chance(0.7)))
+                    new_ops.append(op)
+                    new_ops.append({'k': 'raw', 'id': ids['DBG_DYLD_TIMING_LAUNCH_EXECUTABLE'], 'q': 2, 'a': [0, 0, 0, 0]})
+                    continue
+            new_ops.append(op)
+        th['ops'] = new_ops
     per = kernel.expand_threads(threads, ids)
     shape = rng.pick(['sensitive', 'uniform', 'uniform', 'bursty', 'rr1', 'serial'])
     sched = draw_sensitive(rng, per, tool.codes()) if shape == 'sensitive' else kernel.draw_schedule(rng, per, shape)
